@@ -14,10 +14,11 @@ def lookup_budget(n, k):
     return 50 * (n + 1) * (n + 1) * (k + 1) + 10000
 
 
-def run_repair(rows, k, start, text, check=None, has_indel=True, heap_size=1e9, budget=None, line_budget=None):
+def run_repair(rows, k, start, text, check=None, has_indel=True, heap_size=1e9, budget=None, line_budget=None,
+               layout=None):
     """repair_dna on a counting proxy.  Returns (result | Raised | "BUDGET" | "STEPS", look-ups, lines)."""
     dsw = import_dsw()
-    acc, counter = counted(gens.accessor_of({"k": k, "rows": rows}),
+    acc, counter = counted(gens.accessor_of({"k": k, "rows": rows}, layout),
                            lookup_budget(len(text), k) if budget is None else budget)
     lines = [0]
     tracer = None
